@@ -196,6 +196,16 @@ func init() {
 }
 
 func init() {
+	debugCmds["c13one"] = func(args []string) {
+		rep := vg.DebugC13(args[0])
+		for _, v := range rep.Violations {
+			fmt.Println("VIOL", v.Prop, v.Sig, v.Msg)
+		}
+		fmt.Println("stats", rep.Stats, "inconclusive", rep.Inconclusive)
+	}
+}
+
+func init() {
 	debugCmds["directed"] = func(args []string) {
 		for _, d := range vg.DirectedScenarios {
 			if len(args) > 0 && args[0] != d.Name {
